@@ -9,6 +9,9 @@ CLAIMED = {
  'C01': dict(technique='Lean 4 refinement theorems (Forest model vs abstract complex, lifted over histories) + differential correspondence on 8 option sets + independent Python abstract-complex oracle',
              text='The Forest model of the simplex tree is proved in Lean to refine the abstract complex for every history of insertions (raw and with subfaces, including the short-cut), maximal-simplex removals and both prunes (reachable_refines), with star / cofaces of every codimension, traversal and lazy-dimension theorems; gvdriver ST runs that model and harness/hST.cpp runs the same histories on the real Simplex_tree under eight option sets, comparing the whole observable state after the operations; a Python abstract complex predicts every line independently.',
              note='Lean kernel + axioms propext/Classical.choice/Quot.sound; model tied by differential testing (small universe, preconditions respected); batch/graph/clear/boundary/count/equality readers are word-level functions of the model (correspondence + oracle only); memory layout of option sets not modelled', ref='§5 C01'),
+ 'C03': dict(technique='Lean 4 theorems (strict total comparator, uniqueness of the sorted order, mfnd = least monotone function, prune = sublevel) + differential correspondence incl. TBB builds + Python cone-filtration oracle',
+             text='The comparator is proved a strict total order putting faces first, two sorted permutations are proved equal (so any sort/schedule gives one order), the model order is proved a sorted permutation, make_filtration_non_decreasing is proved to yield the least monotone function above the input and pruning the sublevel complex; gvdriver ST and the real tree (5 option sets, with and without GUDHI_USE_TBB at several thread counts, complexes large enough for parallel_sort to split) are compared on the filtration sequence, flags and values; the extended filtration is compared against the model and a closed-form Python spec.',
+             note='Lean kernel + standard axioms; sort routines trusted to return a sorted permutation; floating point outside the model (inputs exact in double); extended-filtration closed form not a Lean theorem (partial)', ref='§5 C03'),
 }
 ALL = ['C%02d' % i for i in range(1, 21)]
 checks = []
